@@ -170,18 +170,37 @@ def snapshot(root):
 
 
 def leaf_override(n):
-  return LONG if n == 1 else n
+  # leaf 1: a long string (work for the trimming helpers); leaf 2: the default value of s1
+  return LONG if n == 1 else (H.dflt(1) if n == 2 else n)
+
+
+def _mutating_fn(s1=H.dflt(1), s2=H.dflt(2), s3=H.dflt(3)):
+  """A callable that edits the containers it receives (sort / append / setdefault)."""
+  for a in (s1, s2, s3):
+    if isinstance(a, list):
+      a.append('edited-by-callable')
+    elif isinstance(a, dict):
+      a.setdefault('edited-by-callable', 1)
+  return (s1, s2, s3)
+
+
+H.FNS[9] = _mutating_fn
+H.FN_ID[id(_mutating_fn)] = 9
 
 
 def check_heap(rec, apis):
   mism = []
   events = []
   hp = rec['heap']
-  for api in apis:
-    root, _ = H.realize(hp)
+  for api in apis + ['build-mutating-callable']:
+    if api == 'build-mutating-callable':
+      rz = H.Realizer(hp, fn_for=lambda i, o: _mutating_fn)
+      root = rz.obj(1)
+    else:
+      root, _ = H.realize(hp)
     pre, ids, keep = snapshot(root)
     try:
-      APIS[api](root)
+      (fdl.build if api == 'build-mutating-callable' else APIS[api])(root)
       out = 'ok'
     except Exception as e:  # pylint: disable=broad-except
       out = 'raise:' + type(e).__name__
@@ -201,7 +220,7 @@ def work(lines):
   sample = None
   ev_sample = []
   H.leaf_obj = leaf_override
-  H.LEAF_BACK = {LONG: 1}
+  H.LEAF_BACK = {LONG: 1, H.dflt(1): 2}
   for line in lines:
     rec = common.decode_line(line)
     stats['lines'] += 1
@@ -250,12 +269,13 @@ def validate_events(events, wd):
 def main():
   v = common.Verdict(PROP, 'model_checking')
   quick = common.tier() == 'quick'
-  base = dict(MaxItems=2, NLeaves=1, NKeys=1, NSlots=2, EmitOn=True)
+  base = dict(MaxItems=2, NLeaves=2, NKeys=1, NSlots=2, EmitOn=True)
   if quick:
-    runs = [dict(base, MaxObjs=3, NFns=1, KindSet={'config', 'list', 'dict'}, TagChoices={0, 1},
+    runs = [dict(base, MaxObjs=3, NFns=1, NLeaves=1, KindSet={'config', 'list', 'dict'}, TagChoices={0},
                  UnsetTagged=False),
             dict(base, MaxObjs=2, NFns=2, KindSet={'config', 'partial', 'list', 'dict', 'tuple'},
-                 TagChoices={0, 1}, UnsetTagged=True)]
+                 TagChoices={0, 1}, UnsetTagged=True),
+            dict(base, MaxObjs=3, NFns=1, KindSet={'config'}, TagChoices={0}, UnsetTagged=False)]
   else:
     runs = [dict(base, MaxObjs=3, NFns=2, KindSet={'config', 'partial', 'list', 'dict', 'tuple'},
                  TagChoices={0, 1}, UnsetTagged=True)]
